@@ -830,11 +830,17 @@ class Interp:
             raise AnalysisError(f"method {cls.qualname}.{name} not found")
         owner, fn = r
         ctx = (owner.module, cls, self_term)
-        return self.apply_def(fn, Env(), ctx, [self_term] + list(args), kwargs or {})
+        kwargs = dict(kwargs or {})
+        for p in self.prog.new_passed_params(f"{owner.qualname}.{name}", fn):
+            kwargs.setdefault(p, ("sym", "NEW_" + p.upper()))
+        return self.apply_def(fn, Env(), ctx, [self_term] + list(args), kwargs)
 
     def eval_function(self, qual: str, args, kwargs=None):
         m, fn = self.prog.func(qual)
-        return self.apply_def(fn, Env(), (m, None, None), list(args), kwargs or {})
+        kwargs = dict(kwargs or {})
+        for p in self.prog.new_passed_params(f"{m.name}.{fn.name}", fn):
+            kwargs.setdefault(p, ("sym", "NEW_" + p.upper()))
+        return self.apply_def(fn, Env(), (m, None, None), list(args), kwargs)
 
     def eval_init(self, cls: ClassInfo, args, kwargs=None):
         """Evaluate __init__ symbolically; returns dict field -> term."""
